@@ -9,12 +9,11 @@
                   id  = c (current lastReqID) | s (lastReqID+1) | p (lastReqID-1) | decimal
                   cls = g | n | r | b | m     (handler's answer to a Configure-Request; m = data does not parse)
                   data = the hex bytes if given, else <dlen> bytes a0 a1 ...
-   result: per op   <state>/<restartCount>/<armed>/<lastReqID>/<id>/<failCount>:<actions>:<handler call>
+   result: per op   <state>/<restartCount>/<armed>/<lastReqID>/<failCount>:<actions>:<handler call>
            actions = comma separated  scr.<id>.<hex content> sca.<id>.<tag> scn. srj. str. sta. scj. ser. tlu tld tls tlf | -
            handler call = R|A|N|J (ProcessConfReq/Ack/Nak/Rej) followed by the hex of the options passed | -
            a conc case prints the prefix steps, one combined step for the pair, then "alt=ok term=ok".
-   argv[2] = the implementation's output (MODEL_NEEDS_IMPL): the Identifier choices are taken from it - the
-             first token id0=<n> (start value of the counter f.id) and, in order, the Identifiers of the packets
+   argv[2] = the implementation's output (MODEL_NEEDS_IMPL): the Identifier choices are taken from it - in order, the Identifiers of the packets
              the automaton originated (scr / str / scj tokens).  The model runs with that Identifier policy and
              checks that it is ADMISSIBLE: a Configure-Request that is not a retransmission must not repeat the
              Identifier of the previous one, and a Code-Reject must not repeat that of the previous Code-Reject
@@ -206,8 +205,8 @@ let () =
           f := f';
           all_items := !all_items @ List.map (fun a -> IAct a) (outs fy);
           let (((((s, r), a), l), i), fl) = obs f' in
-          (Printf.sprintf "%d/%d/%d/%d/%d/%d" (int_of_z s) (int_of_z r) (if a then 1 else 0)
-             (int_of_z l) (int_of_z i) (int_of_z fl), filter_map (show_act mock kindn f'.hlog []) (outs fy), []) in
+          (Printf.sprintf "%d/%d/%d/%d/%d" (int_of_z s) (int_of_z r) (if a then 1 else 0)
+             (int_of_z l) (int_of_z fl), filter_map (show_act mock kindn f'.hlog []) (outs fy), []) in
         let rec do_op ?last op =
           if List.mem op ["R"; "K"; "X"; "Y"] then admin_op op else
           let e = match op with
@@ -249,8 +248,8 @@ let () =
           let (((((s, r), a), l), i), fl) = obs f' in
           let edata = match e with EInput (_, _, _, d) -> d | _ -> [] in
           let acts = filter_map (show_act mock kindn f'.hlog edata) (outs f') @ (if bug then ["MODELBUG"] else []) @ !inadm in
-          (Printf.sprintf "%d/%d/%d/%d/%d/%d" (int_of_z s) (int_of_z r) (if a then 1 else 0)
-             (int_of_z l) (int_of_z i) (int_of_z fl), acts, hc) in
+          (Printf.sprintf "%d/%d/%d/%d/%d" (int_of_z s) (int_of_z r) (if a then 1 else 0)
+             (int_of_z l) (int_of_z fl), acts, hc) in
         let fmt (o, acts, hc) =
           Printf.sprintf "%s:%s:%s" o (if acts = [] then "-" else String.concat "," acts)
             (if hc = [] then "-" else String.concat "," hc) in
@@ -259,7 +258,7 @@ let () =
                                             | "u" -> x = "tlu" | "d" -> x = "tld" | _ -> false in
         if not conc then begin
           let outl = List.map (fun op -> fmt (do_op op)) ops in
-          print_endline (String.concat " " (Printf.sprintf "id0=%d" id0 :: (if outl = [] then ["empty"] else outl)))
+          print_endline (if outl = [] then "empty" else String.concat " " outl)
         end else begin
           match split_at "/" ops with
           | (prefix, Some [gate; a; b]) ->
@@ -275,7 +274,7 @@ let () =
               else do_op ~last:last0 b in
             let alt = if alternates false !all_items then "alt=ok" else "alt=BAD" in
             let ov = if List.exists (gate_hit gate) aa then "ov=1" else "ov=0" in
-            print_endline (String.concat " " (Printf.sprintf "id0=%d" id0 :: pre @ [fmt (ob, aa @ ab, ha @ hb); ov; alt; "term=ok"]))
+            print_endline (String.concat " " (pre @ [fmt (ob, aa @ ab, ha @ hb); ov; alt; "term=ok"]))
           | _ -> failwith "bad conc case"
         end
       with Failure m -> print_endline ("badcase " ^ m))
